@@ -143,6 +143,9 @@ def c09(tier, seed):
     jobs = sched_jobs(tier, seed, gen=dict(nmax=9, mc_max=3, seq_rate=0.3), selections=True, faults=True, fault_rate=0.3,
                       dfs_faults=False)
     jobs += sched_jobs(tier, seed + 11, gen=dict(nmax=5, mc_max=2, seq_rate=0.4), stress=False, dfs=True, dfs_faults=True, scale=0.2)
+    # "never returns normally while a selected active node has not run" also for executors that are run again after a failure
+    jobs += [dict(kind="hist15", pid="C09", n_histories=(40 if tier == "quick" else 400), only=["executor_rerun_used_partially_consumed_graph"],
+                  **_seeds(seed + 70, k)) for k in range(2 if tier == "quick" else 8)]
     return dict(
         jobs=jobs, level="fault_enumeration",
         rule=RULE_SCHED + "; bounded progress: loop iterations <= 10N+20 (sys.monitoring JUMP count), no wait on something that "
